@@ -26,7 +26,7 @@ ASSUMPTIONS = [
     "predicates are pure functions of the offered NodeTraversalInfo",
     "reference walker (20 lines) encodes the statement: pruned nodes are offered to filter, their descendants are not visited",
 ]
-MUST_SEE = ["late_defined_subclass", "prune_not_filter_with_desc", "falsy_children", "shared_objects", "bottom_up_with_prune", "gather_calls", "deep_chain", "deep_3000_traversals", "abandoned_traversals", "reentrant_predicates"]
+MUST_SEE = ["positional_predicates", "late_defined_subclass", "prune_not_filter_with_desc", "falsy_children", "shared_objects", "bottom_up_with_prune", "gather_calls", "deep_chain", "deep_3000_traversals", "abandoned_traversals", "reentrant_predicates"]
 CONFIG = {
     "quick": {"shards": 16, "small_trees": 600, "exh_n": 4, "large_trees": 300, "watchdog_s": 300},
     "thorough": {"shards": 32, "small_trees": 400, "exh_n": 6, "large_trees": 250, "watchdog_s": 3000},
@@ -346,15 +346,18 @@ def run_shard(ctx):
                 ctx.count("bottom_up_with_prune")
             # dfs top-down
             del flog[:], plog[:]
-            got = list(root.dfs(prune=f_prune, filter=f_filter))
+            positional = rng.random() < 0.3  # the documented parameter order (prune, filter, bottom_up), given by position
+            if positional:
+                ctx.count("positional_predicates")
+            got = list(root.dfs(f_prune, f_filter) if positional else root.dfs(prune=f_prune, filter=f_filter))
             check_stream("dfs", got, [p for p in pre if keep(p)], pr, fl, list(flog), list(plog), pre)
             # dfs bottom-up
             del flog[:], plog[:]
-            got = list(root.dfs(prune=f_prune, filter=f_filter, bottom_up=True))
+            got = list(root.dfs(f_prune, f_filter, True) if positional else root.dfs(prune=f_prune, filter=f_filter, bottom_up=True))
             check_stream("dfs_bottom_up", got, [p for p in post if keep(p)], pr, fl, list(flog), list(plog), pre)
             # bfs
             del flog[:], plog[:]
-            got = list(root.bfs(prune=f_prune, filter=f_filter))
+            got = list(root.bfs(f_prune, f_filter) if positional else root.bfs(prune=f_prune, filter=f_filter))
             check_stream("bfs", got, [p for p in lvl if keep(p)], pr, fl, list(flog), list(plog), lvl)
             ctx.count(f"predsets_{how}")
             if how == "exh" and n > 3 and rng.random() > 0.05:
